@@ -58,6 +58,11 @@ func (c06) Gen(r *simrt.Rand, idx int, tier string) *Case {
 				fmt.Fprintf(&b, "%s \"buy\"\nEquity:Equity Assets:Depot %s %s\n\n", start+Day(r.Range(0, 3)), parts[pi].String(), cm)
 			}
 		}
+		if r.P(0.3) {
+			// one commodity classified twice: whatever knut does about it, it must
+			// do the same on every run
+			fmt.Fprintf(&u, "\"GroupA:Sub\":\n  - \"K1\"\n")
+		}
 		end := start + Day(r.Range(40, 200))
 		fmt.Fprintf(&b, "%s \"later\"\nEquity:Equity Assets:Depot 1 CHF\n\n", end)
 		c.Files = map[string]string{"/w/t.knut": b.String(), "/w/u.yaml": u.String()}
